@@ -50,6 +50,8 @@ pub struct IrEmitter<'a> {
     add_clippy_allows: bool,
     /// Whether to emit the Zen of Incan in main
     emit_zen_in_main: bool,
+    /// Test function to mark with `#[test]` (set by `incan test` harness generation)
+    test_function: Option<String>,
     /// Whether serde is needed (for Serialize/Deserialize derives)
     needs_serde: bool,
     /// Whether tokio is needed (for async runtime)
@@ -93,6 +95,7 @@ impl<'a> IrEmitter<'a> {
             // - unused_variables: pattern bindings like `_x` in destructuring
             add_clippy_allows: true,
             emit_zen_in_main: false,
+            test_function: None,
             needs_serde: false,
             needs_tokio: false,
             needs_axum: false,
@@ -178,6 +181,11 @@ impl<'a> IrEmitter<'a> {
     /// Set whether to emit the Zen of Incan in main.
     pub fn set_emit_zen(&mut self, emit: bool) {
         self.emit_zen_in_main = emit;
+    }
+
+    /// Mark the function named `name` as the test entry point: it is emitted with `#[test]` (or `#[tokio::test]`).
+    pub fn set_test_function(&mut self, name: Option<String>) {
+        self.test_function = name;
     }
 
     /// Set collected routes for web emission.
